@@ -22,5 +22,5 @@ _fparepair_add("C07",
     "the GetMove call of the current thinker (started on a position that is not a start position) computes the same action and leaves the same notes whatever notes the rule value holds on entry (notes_irrelevant: the record ends in the ply-0 start position, so the replay starts from a fresh rule): "
     "resumed games, undone plies and earlier games cannot put the rule out of step with the record. Kernel-evaluated schedules (corpus/C07/compose-fpa-undo-resume.ops): resume_no_panic, cairn_undo_no_resign, doubleStack_resume_no_resign (patched) against "
     "doubleStack_resume_panics_composed_pinned, cairn_undo_resigns_composed_pinned, doubleStack_resume_resigns_composed_pinned (model of the tree before the patch). bot_inv_friendly / current_thinker_total now assume c.replay = true (the patched code).",
-    "current_thinker_total still assumes C20.RuleTotal (now a statement about the record only, since the notes are a function of it): panic-freedom of the rule's own scripts on EVERY record - including resumed openings that were not played by the rule, where e.g. dir(blackTmp, blackPlace) can still meet equal squares - is not proved "
+    "current_thinker_total still assumes C20.RuleTotal (now a statement about the record only, since the notes are a function of it): panic-freedom of the rule's own scripts on EVERY record - including resumed openings that were not played by the rule, where e.g. dir(blackTmp, blackPlace) can still meet equal squares - was not proved by fparepair and is REFUTED by work package fpatotal (see FPA SCRIPTS ON EVERY LEGAL RECORD below; the sentence is kept for the record) "
     "(it needs the geometry of legal Tak records at plies 2..5 at bit level, or a larger shard evaluation with the bot's own moves free); for records played by the rule it is part of C20.HoldsR. On a tree without the patch the composed sessions in which a live call used out-of-step notes are marked `notes-` (open known finding C07-fpa-resume-panic).")
